@@ -60,7 +60,7 @@ def plan(tier, seed):
 def floors(tier):
     return {"distinct_nontrivial": 300, "cls:decl:let": 300, "cls:decl:from": 300, "cls:decl:from_kw": 200, "cls:mixed_types": 200,
             "cls:round:partial": 500, "cls:round:exhausted": 300, "cls:caching_off": 200, "pull_checks": 3000,
-            "cls:no_condition": 100}
+            "cls:no_condition": 100, "cls:round:iterator_kept_alive": 300, "cls:iterator_without_any_instance_of_the_type": 100}
 
 
 def cases(spec, ctx):
@@ -70,13 +70,15 @@ def cases(spec, ctx):
         cond = C.gen_cond(rng, ["P"], rng.choice([0, 1, 2, 2, 3, 4])) if rng.random() > 0.12 else None
         n = len(world["P"])
         mixed = sorted(rng.sample(range(n + 1), rng.randint(1, 2))) if rng.random() < 0.4 else []
-        rounds = [[rng.randint(0, n + 1), rng.choice(["close", "close", "drop", "exhaust"])] for _ in range(rng.randint(2, 5))]
+        rounds = [[rng.randint(0, n + 1), rng.choice(["close", "close", "drop", "exhaust", "keep"])] for _ in range(rng.randint(2, 5))]
         decl = rng.choice(["let", "let", "from", "from", "from_kw"])
         kw = {}
         if decl == "from_kw":       # T(From(it), field=constant, ...): constant field constraints in the term itself
             kw = {f: rng.randint(1, 3) for f in rng.sample(["a", "b"], rng.randint(1, 2))}
         yield {"world": world, "cond": cond, "decl": decl, "kw": kw, "mixed": mixed, "rounds": rounds,
-               "caching": rng.random() < 0.7, "form": rng.choice(["entity", "entity", "direct"])}
+               "caching": rng.random() < 0.7, "form": rng.choice(["entity", "entity", "direct"]),
+               # the iterator may hold no object of the variable's type at all (such objects exist elsewhere in the process)
+               "no_instance": rng.random() < 0.06}
 
 
 def check_case(case, ctx):
@@ -88,6 +90,10 @@ def check_case(case, ctx):
     items = list(ps)
     for pos in case["mixed"]:
         items.insert(pos, Other())
+    if case.get("no_instance"):
+        items = [Other() for _ in items]
+        ctx.cls("cls:iterator_without_any_instance_of_the_type")
+    kept = []
     cond = case["cond"]
     kw = case.get("kw") or {}
     qual = [i for i, o in enumerate(items) if isinstance(o, D.P) and all(getattr(o, f) == v for f, v in kw.items())
@@ -162,6 +168,9 @@ def check_case(case, ctx):
             if how == "drop":
                 del it
                 gc.collect()
+            elif how == "keep":
+                kept.append(it)         # suspended and kept alive, never advanced again
+                ctx.cls("cls:round:iterator_kept_alive")
             else:
                 it.close()
             pulled = [e for e in li.log if e != "END"]
@@ -178,3 +187,4 @@ def check_case(case, ctx):
                     "pull_log": list(li.log)})
     finally:
         enable_caching()
+        kept.clear()
